@@ -40,6 +40,26 @@ directories; the model (`c14.run` for the one target, from the files present bef
 the call's write log and the files afterwards. `api_generate_lands_in_own_dirs` (Props/C14.lean) is the
 theorem: from any state of the API object, `generate` writes `<directory of the generating context>/<name>`.
 
+Configuration file plus overriding options (`override` stream): the run is configured from a file (yaml / yml / json / toml,
+relative / in a sub directory / absolute) AND options — through `API.configure(path, options=…)` and through the real command
+line (`pydjinni --config f -o generate.cpp.out=… generate [--clean] idl targets…`, a process of its own, write log through
+`$PYDJINNI_VERIF_WRITELOG`). For every generator of the run the options may change the *shape* of `out` (split mapping -> one
+directory, one directory -> mapping, one key of the mapping, mapping -> mapping, directory -> directory), of `identifier.file`
+(style + prefix mapping <-> plain style name), and move the report. The effective configuration is the model's merge
+(`Sys/Config.lean: combine`, asked through `c17.merge`; `merge_override`, `merge_keeps`, `override_single_dir_wins`,
+`override_split_dir_wins`): a second context is configured from the merged mapping alone, its validated dump has to equal the
+one of the file + options context (`override:not-effective:<what>`), and `c14.spec` / `c14.run` are evaluated against IT —
+files, `clean` and the report follow the effective directories; the directories the file named and the options replaced hold
+stale files that nobody may touch.
+
+Generate -> purge -> generate (`regen` stream): ONE context of one API object runs two or three rounds of parse + generate
+(all targets) + report; between the rounds the output is purged by `clean=True` (what the language server does on every
+save), by the user removing the output directories, by the user removing *some* generated files, or not at all; the IDL only
+grows. Every call is checked as in the multi-context stream (`c14.callspec`, `c14.run` per call); the whole history is ONE
+observation for `c14.spec` (all writes, files at the end vs. files at the beginning, the last report, inputs = the reads of
+every parse): every listed file exists afterwards, the report is the write log, and below purged directories nothing but
+listed files remains (`history:<clause>`).
+
 Specification on the implementation's observation (`c14.spec`, Lean): every write below a configured
 output directory (not `<out>/<out>/…`), nothing else created/changed, deletions only by `clean` below
 the cleaned directories, report == write log per generator with its directories, inputs == root ∪
@@ -88,6 +108,10 @@ THEOREMS = [
     "Pydjinni.SysC.api_generate_lands_in_own_dirs",
     "Pydjinni.SysC.api_generate_under_own_out",
     "Pydjinni.SysC.legacy_generate_lands_in_foreign_dir",
+    "Pydjinni.Sys.merge_override",
+    "Pydjinni.Sys.merge_keeps",
+    "Pydjinni.Sys.override_single_dir_wins",
+    "Pydjinni.Sys.override_split_dir_wins",
 ]
 LEVEL = "proof"
 TRUSTED = ["sysworker.py adapter: dumps of the validated configuration and of the parser's declaration list are the model's inputs",
@@ -421,9 +445,10 @@ def model_request(job, meta, obs, tables):
     R = obs["root"]
     parse = obs["calls"][0]
     cwd_abs = os.path.normpath(os.path.join(R, job["cwd"]))
-    return {"op": "c14.run", "cwd": cwd_abs, "gens": obs["cfg"][0], "targets": meta["targets"], "clean": meta["clean"],
-            "supportLib": obs["meta"][0]["supportLib"], "support": tables["support"], "defs": parse.get("defs", []),
-            "report": obs["meta"][0]["report"],
+    ci = meta.get("cfg_index", 0)       # override stream: the context configured from the *merged* mapping
+    return {"op": "c14.run", "cwd": cwd_abs, "gens": obs["cfg"][ci], "targets": meta["targets"], "clean": meta["clean"],
+            "supportLib": obs["meta"][ci]["supportLib"], "support": tables["support"], "defs": parse.get("defs", []),
+            "report": obs["meta"][ci]["report"],
             "reads": [os.path.join(R, p) for p in meta["reads"]], "exts": [os.path.join(R, p) for p in meta["exts"]],
             "before": sorted(obs["before"].keys())}
 
@@ -526,7 +551,8 @@ def python_side(job, obs, meta=None):
     pyfails = []
     for c, rec in zip(job["calls"], obs["calls"]):
         if not rec["ok"] and not rec.get("skipped"):
-            pyfails.append({"key": "run-failed:" + (rec["exc"] or {}).get("cls", "diagnostics"), "detail": json.dumps(rec.get("exc") or rec["diags"][:2])[:300]})
+            pyfails.append({"key": "run-failed:" + (rec["exc"] or {}).get("cls", "command-line" if c["op"] == "cli" else "diagnostics"),
+                            "detail": json.dumps(rec.get("exc") or rec["diags"][:2] or rec.get("output", ""))[:300]})
     if not obs.get("reports"):
         pyfails.append({"key": "report-not-written", "detail": ""})
     else:
@@ -673,6 +699,8 @@ def evaluate_multi(ctx, job, meta, obs, tables):
     defs_of = {}
     k = -1
     for idx, (call, rec) in enumerate(zip(job["calls"], obs["calls"])):
+        if call["op"] == "wipe":
+            continue
         if call["op"] == "parse":
             k += 1
             defs_of[k] = rec.get("defs", [])
@@ -689,10 +717,17 @@ def evaluate_multi(ctx, job, meta, obs, tables):
         sreqs.append({**base, "op": "c14.callspec", "impl": {"log": [e[1] for e in rec["log"]], "created": rec["created"], "deleted": rec["deleted"]}})
         mreqs.append({**base, "op": "c14.run"})
         idxs.append((idx, call, rec, c))
-    answers = ctx.driver.batch(sreqs + mreqs)
+    hreq = [history_request(job, meta, obs, tables)] if meta.get("stream") == "regen" and all(r["ok"] for r in obs["calls"]) else []
+    answers = ctx.driver.batch(sreqs + mreqs + hreq)
     for a in answers:
         if "error" in a:
             raise RuntimeError(f"driver error {a}")
+    if hreq:
+        # the specification of a run on the whole history of the one context
+        for f in answers[-1]["fails"]:
+            fails.append({"key": "history:" + f["key"], "call": len(job["calls"]) - 1,
+                          "detail": f"after the history [{describe_history(job)}] of one context: {f['detail'][:240]}"})
+        answers = answers[:-1]
     for (idx, call, rec, c), sa, ma in zip(idxs, answers[:len(sreqs)], answers[len(sreqs):]):
         for f in sa["fails"]:
             fails.append({"key": f["key"], "call": idx,
@@ -709,6 +744,260 @@ def evaluate_multi(ctx, job, meta, obs, tables):
             diffs.append({"call": idx, "what": "files on disk after the call", "only_impl": sorted(set(after) - set(ma["after"]))[:4],
                           "only_model": sorted(set(ma["after"]) - set(after))[:4]})
     return fails, diffs
+
+
+# ---------------------------------------------------------------------------------------------------
+# configuration = a file PLUS overriding options (API `options=`, the real command line `-o key=value`)
+# ---------------------------------------------------------------------------------------------------
+
+OVERRIDE_SHAPES = ["split->single", "single->split", "split->header-only", "split->split", "single->single"]
+OVERRIDE_VIAS = ["api", "cli"]
+CONFIG_FORMATS = ["yaml", "yml", "json", "toml"]
+
+
+def config_text(d: dict, fmt: str) -> str:
+    if fmt in ("yaml", "yml"):
+        import yaml
+        return yaml.safe_dump(d, default_flow_style=False)
+    if fmt == "json":
+        return json.dumps(d, indent=1)
+    import tomli_w
+    return tomli_w.dumps(d)
+
+
+def flatten_options(d: dict, prefix: str = "") -> list[str]:
+    """a nested options dict as `-o a.b.c=value` texts (leaves are texts)"""
+    out = []
+    for k, v in d.items():
+        if isinstance(v, dict):
+            out += flatten_options(v, prefix + k + ".")
+        else:
+            out.append(f"{prefix}{k}={v}")
+    return out
+
+
+def make_override_case(seed_key: str, shape: str | None = None, via: str | None = None):
+    """The configuration of the run is a *file* (yaml / yml / json / toml, next to the working directory, in a sub directory or
+    given by its absolute path) merged with *overriding options*. For every generator of the run the override may change the
+    SHAPE of `out` (split header/source mapping -> one directory, one directory -> mapping, one key of the mapping only), of
+    `identifier.file` (style + prefix mapping <-> plain style name), move the report, or leave the section alone. The
+    effective configuration is the model's merge (`Sys/Config.lean: combine`, theorems `merge_override` / `merge_keeps`;
+    computed by the caller through `c17.merge`): files, `clean` and the report have to follow IT — the directories the file
+    named and the override replaced are no output directories any more (stale files in them stay)."""
+    r = random.Random(seed_key)
+    shape = shape or r.choice(OVERRIDE_SHAPES)
+    via = via or r.choice(OVERRIDE_VIAS)
+    pg = sysgen.ProgGen(r, stress="plain", multi_file=r.random() < 0.2, with_extern=r.random() < 0.15, max_decls=r.choice([2, 3, 4]))
+    prog = pg.program()
+    cwd = r.choice(CWDS)
+    targets = r.sample(sysgen.TARGETS, r.choice([1, 2, 2, 3]))
+    fmt = r.choice(FORMATS)
+    rep_kind = r.choice(["rel", "sub", "abs"])
+    report = {"rel": f"processed.{fmt}", "sub": f"reports/out/files.{fmt}", "abs": "{ROOT}/abs_report." + fmt}[rep_kind]
+    inc = os.path.relpath("inc", cwd) if r.random() < 0.6 else "{ROOT}/inc"
+    base = sysgen.make_options(r, targets, out_kind="rel", naming="default", report=report, include_dirs=[inc], extras=r.random() < 0.5)
+    gen = base["generate"]
+    sp = lambda name: r.choice([name, name, "{ROOT}/" + name, "./" + name + "/"])
+    over: dict = {}
+    keys = [k for k, c in gen.items() if isinstance(c, dict) and "out" in c]
+    chosen = [k for k in keys if r.random() < 0.7] or [r.choice(keys)]
+    shapes_used = set()
+    for k in keys:
+        splittable = k not in ("java", "yaml")
+        sh = shape if k in chosen else "untouched"
+        if not splittable and sh not in ("untouched",):
+            sh = "single->single"
+        if sh in ("split->single", "split->header-only", "split->split"):
+            gen[k]["out"] = {"header": sp(f"gen/{k}/include"), "source": sp(f"gen/{k}/src")}
+        else:
+            gen[k]["out"] = sp(f"gen/{k}")
+        if sh in ("split->single", "single->single"):
+            over[k] = {"out": sp(f"build/{k}")}
+        elif sh == "single->split":
+            over[k] = {"out": {"header": sp(f"build/{k}/h"), "source": sp(f"build/{k}/s")}}
+        elif sh == "split->header-only":
+            over[k] = {"out": {r.choice(["header", "source"]): sp(f"build/{k}/one")}}
+        elif sh == "split->split":
+            over[k] = {"out": {"header": sp(f"build/{k}/h"), "source": sp(f"build/{k}/s")}}
+        shapes_used.add(sh)
+        # the file-name style: mapping {style, prefix} in the file, a plain style name in the override — or the other way round
+        if k in ("cpp", "jni", "cppcli") and r.random() < 0.3:
+            if r.random() < 0.5:
+                gen[k]["identifier"] = {"file": {"style": "snake_case", "prefix": r.choice(["gen_", "x_"])}}
+                over.setdefault(k, {})["identifier"] = {"file": r.choice(["PascalCase", "camelCase", "snake_case"])}
+                shapes_used.add("style:mapping->name")
+            else:
+                gen[k]["identifier"] = {"file": r.choice(["PascalCase", "snake_case"])}
+                over.setdefault(k, {})["identifier"] = {"file": {"style": r.choice(["snake_case", "camelCase"]), "prefix": r.choice(["o_", "Ov"])}}
+                shapes_used.add("style:name->mapping")
+    options: dict = {"generate": over}
+    if r.random() < 0.3:
+        rk2 = r.choice(["rel", "abs"])
+        options["generate"]["list_processed_files"] = {"rel": f"moved/report.{fmt}", "abs": "{ROOT}/moved_report." + fmt}[rk2]
+        shapes_used.add("report-moved")
+    cfmt = r.choice(CONFIG_FORMATS)
+    cfg_rel = r.choice([f"pydjinni.{cfmt}", f"cfg/settings.{cfmt}", "{ROOT}/conf/pydjinni." + cfmt])
+    cfg_file = rootrel(cwd, cfg_rel)
+    clean = r.random() < 0.6
+    idl = os.path.relpath(prog["root"], cwd) if r.random() < 0.6 else "{ROOT}/" + prog["root"]
+    files = dict(prog["files"])
+    files[cfg_file] = config_text(base, cfmt)
+    job = {"files": files, "cwd": cwd, "snapshot": True, "subst_files": [cfg_file], "override": {"file": base, "options": options},
+           "contexts": [{"config_file": cfg_rel, "options": options, "path_object": r.random() < 0.5}, None]}
+    if via == "api":
+        job["calls"] = [{"op": "parse", "ctx": 0, "idl": idl}] + [{"op": "generate", "gc": 0, "target": t, "clean": clean} for t in targets] + [{"op": "report", "gc": 0}]
+    else:
+        argv = ["--config", cfg_rel] + [a for o in flatten_options(options) for a in (r.choice(["-o", "--option"]), o)] + ["generate"] + (["--clean"] if clean else []) + [idl] + targets
+        job["calls"] = [{"op": "parse", "ctx": 1, "idl": idl}, {"op": "cli", "argv": argv, "report_ctx": 1}]
+    meta = {"out_kind": f"override:{shape}:{via}", "cwd": cwd, "fmt": fmt, "report": rep_kind, "clean": clean, "targets": targets,
+            "idl_abs": idl.startswith("{ROOT}"), "features": prog["features"] + sorted("override:" + x for x in shapes_used) + [f"config:{cfmt}", "via:" + via],
+            "reads": dfs_order(prog["root"], prog["imports"]), "exts": prog["externs"], "stream": "override", "cfg_index": 1, "via": via,
+            "shapes": sorted(shapes_used)}
+    return job, meta
+
+
+def finish_override_cases(ctx, cases):
+    """the effective configuration of every override case = the model's merge of the options into the file's mapping; it becomes
+    context 1 (configured from options alone, the way every other stream configures) and decides the pre-existing files"""
+    todo = [c for c in cases if c[1].get("stream") == "override"]
+    if not todo:
+        return
+    answers = ctx.driver.batch([{"op": "c17.merge", "o": c[0]["override"]["options"], "b": c[0]["override"]["file"]} for c in todo])
+    for (job, meta, *_), a in zip(todo, answers):
+        if "error" in a:
+            raise RuntimeError(f"driver error {a}")
+        eff = a["m"]
+        job["contexts"][1] = eff
+        pre = standard_pre(job["cwd"], eff)
+        for d in out_dirs(job["cwd"], job["override"]["file"]):       # what the file named: stale files there are nobody's business
+            pre[f"{d}/left_{len(pre)}.hpp"] = "in a directory the configuration file names"
+        job["pre"] = pre
+        meta["effective_dirs"] = out_dirs(job["cwd"], eff)
+        meta["overridden_dirs"] = [d for d in out_dirs(job["cwd"], job["override"]["file"]) if d not in meta["effective_dirs"]]
+
+
+def override_side(job, meta, obs):
+    """the configuration the implementation validated from file + options against the one validated from the merged mapping"""
+    fails = []
+    if meta.get("stream") != "override":
+        return fails
+    for i, c in enumerate(obs.get("configure", [])):
+        if not c["ok"]:
+            fails.append({"key": "override:configuration-refused", "detail": f"context {i}: {json.dumps(c['exc'])[:300]}"})
+            return fails
+    a, b = obs["cfg"][0], obs["cfg"][1]
+    for g in sorted(set(a) | set(b)):
+        ka, kb = a.get(g), b.get(g)
+        if ka != kb:
+            field = next((f for f in sorted(set(ka or {}) | set(kb or {})) if (ka or {}).get(f) != (kb or {}).get(f)), "?")
+            fails.append({"key": "override:not-effective:" + ("out" if field == "out" else "file-style" if field == "file" else "other"),
+                          "detail": f"generate.{g}.{field}: configured from {job['contexts'][0]['config_file']} + options {json.dumps(job['override']['options']['generate'].get(g))} "
+                                    f"the implementation uses {json.dumps((ka or {}).get(field))}; the merge of the options into the file gives {json.dumps((kb or {}).get(field))}"})
+    ma, mb = obs["meta"][0], obs["meta"][1]
+    for f in ("report", "supportLib", "include_dirs"):
+        if ma.get(f) != mb.get(f):
+            fails.append({"key": "override:not-effective:" + f, "detail": f"generate: {f} is {ma.get(f)!r}, the merge gives {mb.get(f)!r}"})
+    return fails
+
+
+# ---------------------------------------------------------------------------------------------------
+# one context generates again after its output was purged (generate -> purge -> generate)
+# ---------------------------------------------------------------------------------------------------
+
+REGEN_PURGES = ["clean", "clean", "wipe-dirs", "wipe-some-files", "none"]
+GROWN = ["grown_{j} = enum {{ item_a; item_b; }}", "grown_{j} = record {{ f0: i32; f1: string; }} deriving(eq)", "grown_{j} = flags {{ flag_a; flag_b; }}",
+         "grown_{j} = interface +cpp {{ m0(p0: i32) -> bool; }}", "namespace grown.ns_{j} {{\n  grown_{j} = record {{ f0: bool; }}\n}}"]
+
+
+def make_regen_case(seed_key: str, purge: str | None = None):
+    """ONE configured context of one API object runs two or three rounds of parse + generate (every target of the list) +
+    report — what the language server does on every save and what a build script does that keeps its `API()`. Between the
+    rounds the output is purged: by `clean=True` of the next round's generate calls, by the user removing the output
+    directories, by the user removing *some* of the generated files — or not at all (control). The program only grows from
+    round to round (declarations are appended), so that after every round the report — which accumulates over the life of the
+    API object — lists, as a set, exactly the files a fresh run of that round would write: every listed file has to exist,
+    and below purged directories nothing else."""
+    r = random.Random(seed_key)
+    purge = purge or r.choice(REGEN_PURGES)
+    pg = sysgen.ProgGen(r, stress="plain", multi_file=r.random() < 0.25, with_extern=r.random() < 0.15, max_decls=r.choice([2, 3, 4]))
+    prog = pg.program()
+    cwd = r.choice(CWDS)
+    targets = r.sample(sysgen.TARGETS, r.choice([1, 2, 2, 3]))
+    fmt = r.choice(FORMATS)
+    rep_kind = r.choice(["rel", "sub", "abs"])
+    report = {"rel": f"processed.{fmt}", "sub": f"reports/out/files.{fmt}", "abs": "{ROOT}/abs_report." + fmt}[rep_kind]
+    inc = os.path.relpath("inc", cwd) if r.random() < 0.6 else "{ROOT}/inc"
+    out_kind = r.choice(sysgen.OUT_KINDS)
+    opts = sysgen.make_options(r, targets, out_kind=out_kind, naming=r.choice(["default", "default", "random"]), report=report, include_dirs=[inc])
+    idl = os.path.relpath(prog["root"], cwd) if r.random() < 0.6 else "{ROOT}/" + prog["root"]
+    rounds = r.choice([2, 2, 3])
+    first_clean = r.random() < 0.5
+    # the directories the generate calls of the history own (a configured generator whose target is never generated keeps its own)
+    ran = {g for t in targets for g in sysgen.GEN_OF_TARGET[t]}
+    dirs = out_dirs(cwd, {"generate": {k: c for k, c in opts["generate"].items() if k in ran}})
+    calls, origin, text = [], [], prog["files"][prog["root"]]
+    for k in range(rounds):
+        write = None
+        if k > 0:
+            if purge == "wipe-dirs":
+                calls.append({"op": "wipe", "paths": dirs})
+            elif purge == "wipe-some-files":
+                calls.append({"op": "wipe", "paths": dirs, "sample": {"seed": f"{seed_key}/{k}", "p": r.choice([0.3, 0.6, 1.0])}})
+            if r.random() < 0.7:        # the IDL is saved with one more declaration
+                text = text + r.choice(GROWN).format(j=k) + "\n"
+                write = {prog["root"]: text}
+        calls.append({"op": "parse", "ctx": 0, "idl": idl, **({"write": write} if write else {})})
+        origin.append((0, 0))
+        ts = targets if r.random() < 0.7 else targets[::-1]
+        for t in ts:
+            calls.append({"op": "generate", "gc": k, "target": t, "clean": first_clean if k == 0 else purge == "clean"})
+        if k == rounds - 1 or r.random() < 0.5:
+            calls.append({"op": "report", "gc": k})
+    job = {"files": prog["files"], "pre": standard_pre(cwd, opts), "cwd": cwd, "contexts": [opts], "calls": calls, "snapshot_calls": True}
+    meta = {"shape": "regen:" + purge, "out_kinds": [out_kind], "cwd": cwd, "targets": [targets], "origin": origin, "stale_context_generates": 0,
+            "features": prog["features"], "stream": "regen", "purge": purge, "rounds": rounds, "first_clean": first_clean, "fmt": fmt,
+            "reads": dfs_order(prog["root"], prog["imports"]), "exts": prog["externs"],
+            # every output directory has been emptied at some point of the history (and every file that was in it before is gone)
+            "purged": purge in ("clean", "wipe-dirs") or first_clean}
+    return job, meta
+
+
+def history_request(job, meta, obs, tables):
+    """the whole history as ONE observation for `c14.spec`: all writes, what exists at the end against what existed at the
+    beginning, the last report; inputs = the reads of every parse"""
+    R = obs["root"]
+    cwd_abs = os.path.normpath(os.path.join(R, job["cwd"]))
+    recs = obs["calls"]
+    first = set(recs[0]["existing"])
+    cur, touched = set(first), set()
+    for rec in recs:
+        cur = (cur - set(rec["deleted"])) | set(rec["created"])
+        touched |= set(rec["created"])
+    nparse = sum(1 for c, rec in zip(job["calls"], recs) if c["op"] == "parse" and rec["ok"])
+    last_defs = [rec.get("defs", []) for c, rec in zip(job["calls"], recs) if c["op"] == "parse"][-1]
+    rep = obs["reports"][-1]["data"] if obs.get("reports") and obs["reports"][-1]["data"] is not None else {"parsed": {"idl": [], "external_types": []}, "generated": {}}
+    return {"op": "c14.spec", "cwd": cwd_abs, "gens": obs["cfg"][0], "targets": meta["targets"][0], "clean": meta["purged"],
+            "supportLib": obs["meta"][0]["supportLib"], "support": tables["support"], "defs": last_defs, "report": obs["meta"][0]["report"],
+            "reads": [], "exts": [], "before": sorted(first),
+            "expectIdl": [os.path.normpath(os.path.join(R, p)) for p in meta["reads"]] * nparse,
+            "expectExt": [os.path.normpath(os.path.join(R, p)) for p in meta["exts"]] * nparse,
+            "impl": {"log": [e[1] for rec in recs for e in rec["log"]], "created": sorted(touched & cur), "deleted": sorted(first - cur),
+                     "report": {"idl": rep.get("parsed", {}).get("idl", []), "ext": rep.get("parsed", {}).get("external_types", []),
+                                "generated": rep.get("generated", {})}}}
+
+
+def describe_history(job):
+    out = []
+    for c in job["calls"]:
+        if c["op"] == "parse":
+            out.append("parse" + ("(IDL grown)" if c.get("write") else ""))
+        elif c["op"] == "generate":
+            out.append(f"generate({c['target']}{', clean' if c.get('clean') else ''})")
+        elif c["op"] == "wipe":
+            out.append("user removes " + ("some generated files" if c.get("sample") else "the output directories"))
+        else:
+            out.append(c["op"])
+    return " -> ".join(out)
 
 
 SIBLING_CORPUS = ["corpus/c14/sibling/0", "corpus/c14/sibling/1", "corpus/c14/sibling/2"]
@@ -755,7 +1044,23 @@ def run(ctx):
     for i in range(ctx.n(14, 200)):
         key = f"{ctx.seed}/c14/links/{i}"
         cases.append(make_link_case(key) + (key, {"stream": "links"}))
+    # configuration file + overriding options (shape of `out` / of the file-name style changed by the override), API and real CLI
+    for sh in OVERRIDE_SHAPES:
+        for via in OVERRIDE_VIAS:
+            key = f"corpus/c14/override/{sh}/{via}"
+            cases.append(make_override_case(key, sh, via) + (key, {"stream": "override", "shape": sh, "via": via}))
+    for i in range(ctx.n(14, 200)):
+        key = f"{ctx.seed}/c14/override/{i}"
+        cases.append(make_override_case(key) + (key, {"stream": "override"}))
+    finish_override_cases(ctx, cases)
     mcases = []
+    # generate -> purge -> generate on one context
+    for pu in sorted(set(REGEN_PURGES)):
+        key = f"corpus/c14/regen/{pu}"
+        mcases.append(make_regen_case(key, pu) + (key,))
+    for i in range(ctx.n(16, 200)):
+        key = f"{ctx.seed}/c14/regen/{i}"
+        mcases.append(make_regen_case(key) + (key,))
     for sh in MULTI_SHAPES:
         key = f"{ctx.seed}/c14/multi/shape/{sh}"
         mcases.append(make_multi_case(key, sh) + (key,))
@@ -777,6 +1082,10 @@ def run(ctx):
             ctx.stat(f"{k}={meta[k]}")
         if meta.get("stream"):
             ctx.stat("stream=" + meta["stream"])
+            if meta["stream"] == "override":
+                ctx.stat("override_via=" + meta["via"])
+                for x in meta["shapes"]:
+                    ctx.stat("override_shape=" + x)
             if meta["stream"] == "links":
                 ctx.stat("links_layout=" + meta["layout"])
                 ctx.stat("links_entries_with_dotdot", sum(1 for e in (obs["reports"][-1].get("inputs") or {}).get("idl", []) if "/../" in e["entry"]) if obs.get("reports") else 0)
@@ -789,6 +1098,8 @@ def run(ctx):
         if not m.get("relNamesClean", True):
             ctx.stat("outside Dom: relNamesClean")
         replay = {"seed_key": key, "forced": forced, "job": job, "meta": meta}
+        for f in override_side(job, meta, obs):
+            ctx.report(f["key"], f"{f['key']}: {f['detail'][:400]}", {**replay, "failure": f})
         for f in s["fails"] + pyfails:
             ctx.report("files:" + f["key"], f"{f['key']}: {f['detail'][:200]}", {**replay, "failure": f, "spec": s})
         d = compare(job, meta, obs, m, s)
@@ -804,6 +1115,10 @@ def run(ctx):
                   nontrivial=meta["stale_context_generates"] > 0,
                   sample={"shape": meta["shape"], "out": meta["out_kinds"], "cwd": meta["cwd"], "targets": meta["targets"], "calls": len(job["calls"])})
         ctx.stat("multi_streams")
+        if meta.get("stream") == "regen":
+            ctx.stat("regen_histories")
+            ctx.stat("regen_purge=" + meta["purge"])
+            ctx.stat("regen_rounds", meta["rounds"])
         ctx.stat("multi_shape=" + meta["shape"])
         ctx.stat("multi_calls", len(job["calls"]))
         ctx.stat("multi_generate_calls", ngen)
@@ -841,5 +1156,6 @@ def replay(ctx, body):
         return not fails
     obs = sysgen.run_jobs(ctx, [job], workers=1, tag="c14r")[0]
     m, s, pyfails = evaluate(ctx, job, meta, obs, tables)
-    print(json.dumps({"spec": s, "python_side": pyfails, "model_vs_impl": compare(job, meta, obs, m, s)}, indent=1)[:4000])
-    return s["holds"] and not pyfails
+    ofails = override_side(job, meta, obs)
+    print(json.dumps({"spec": s, "override": ofails, "python_side": pyfails, "model_vs_impl": compare(job, meta, obs, m, s)}, indent=1)[:4000])
+    return s["holds"] and not pyfails and not ofails
